@@ -15,6 +15,11 @@
 (* for spg; TLC refutes the properties when one is TRUE):                  *)
 (*   PointerReceiver  the derived fields are built into the shared object  *)
 (*   CacheDerived     derived fields, once built, are reused by later calls *)
+(*   GlobalLock       reads of the random source are serialised by a        *)
+(*                    process-wide lock that a failing read leaves held     *)
+(* A call may also FAIL while it draws (the random source errors, the call  *)
+(* panics, the caller recovers): it returns nothing and leaves nothing      *)
+(* behind - in particular nothing that could block or change a later call.  *)
 (***************************************************************************)
 EXTENDS Integers, FiniteSets, TLC
 
@@ -23,7 +28,7 @@ CONSTANTS Objects,        \* recipe values shared by the goroutines
           Values,         \* abstract public-field values
           MaxCalls,       \* calls per goroutine
           MaxSets,        \* caller-side field updates in a history
-          PointerReceiver, CacheDerived
+          PointerReceiver, CacheDerived, GlobalLock
 
 Nil == <<"nil">>
 Derive(v) == <<"derived", v>>        \* what buildCharacterList computes from the fields
@@ -38,21 +43,22 @@ VARIABLES pub,     \* [Objects -> Values]
           res,     \* [Goroutines -> ...]       result about to be returned
           seen,    \* [Goroutines -> Values]    pub[obj] when the call started (for the purity property)
           calls, sets,
-          writing  \* set of goroutines currently inside a write to SHARED hidden state
-vars == <<pub, hid, pc, obj, lpub, lhid, res, seen, calls, sets, writing>>
+          writing, \* set of goroutines currently inside a write to SHARED hidden state
+          lock     \* process-wide lock around source reads: "free" or its holder (always "free" unless GlobalLock)
+vars == <<pub, hid, pc, obj, lpub, lhid, res, seen, calls, sets, writing, lock>>
 
 Init == /\ pub \in [Objects -> Values] /\ hid = [o \in Objects |-> Nil]
         /\ pc = [g \in Goroutines |-> "idle"] /\ obj \in [Goroutines -> Objects]
         /\ lpub = [g \in Goroutines |-> CHOOSE v \in Values : TRUE] /\ lhid = [g \in Goroutines |-> Nil]
         /\ res = [g \in Goroutines |-> Nil] /\ seen = lpub
-        /\ calls = [g \in Goroutines |-> 0] /\ sets = 0 /\ writing = {}
+        /\ calls = [g \in Goroutines |-> 0] /\ sets = 0 /\ writing = {} /\ lock = "free"
 
 \* r.Method(): the receiver is copied (struct copy: field values, incl. the pointers of already-built derived fields)
 CopyIn(g, o) == /\ pc[g] = "idle" /\ calls[g] < MaxCalls
                 /\ obj' = [obj EXCEPT ![g] = o] /\ lpub' = [lpub EXCEPT ![g] = pub[o]] /\ lhid' = [lhid EXCEPT ![g] = hid[o]]
                 /\ seen' = [seen EXCEPT ![g] = pub[o]] /\ pc' = [pc EXCEPT ![g] = "copied"]
                 /\ calls' = [calls EXCEPT ![g] = @ + 1]
-                /\ UNCHANGED <<pub, hid, res, sets, writing>>
+                /\ UNCHANGED <<pub, hid, res, sets, writing, lock>>
 \* buildCharacterList: assigns fresh derived values - to the copy (value receiver) or to the shared object (pointer receiver)
 BuildBegin(g) == /\ pc[g] = "copied"
                  /\ IF CacheDerived /\ lhid[g] # Nil
@@ -63,23 +69,29 @@ BuildBegin(g) == /\ pc[g] = "copied"
                               /\ writing' = writing \cup {g}
                          ELSE /\ lhid' = [lhid EXCEPT ![g] = Derive(lpub[g])] /\ UNCHANGED <<hid, writing>>
                  /\ pc' = [pc EXCEPT ![g] = "built"]
-                 /\ UNCHANGED <<pub, obj, lpub, res, seen, calls, sets>>
+                 /\ UNCHANGED <<pub, obj, lpub, res, seen, calls, sets, lock>>
 \* draw characters / compute entropy from the derived fields
-Use(g) == /\ pc[g] = "built"
+Use(g) == /\ pc[g] = "built" /\ (GlobalLock => lock = "free")      \* (acquire; read; release) - atomic here, the lock is free again afterwards
           /\ res' = [res EXCEPT ![g] = Result(IF PointerReceiver THEN hid[obj[g]] ELSE lhid[g])]
           /\ writing' = writing \ {g}
           /\ pc' = [pc EXCEPT ![g] = "used"]
-          /\ UNCHANGED <<pub, hid, obj, lpub, lhid, seen, calls, sets>>
+          /\ UNCHANGED <<pub, hid, obj, lpub, lhid, seen, calls, sets, lock>>
 Return(g) == /\ pc[g] = "used"
              /\ pc' = [pc EXCEPT ![g] = "idle"]
-             /\ UNCHANGED <<pub, hid, obj, lpub, lhid, res, seen, calls, sets, writing>>
+             /\ UNCHANGED <<pub, hid, obj, lpub, lhid, res, seen, calls, sets, writing, lock>>
+\* the random source fails while the call draws: panic, recovered by the caller; no result.  With GlobalLock the failing
+\* read happens inside the critical section and the panic skips the release.
+Fail(g) == /\ pc[g] = "built" /\ (GlobalLock => lock = "free")
+           /\ pc' = [pc EXCEPT ![g] = "idle"] /\ writing' = writing \ {g}
+           /\ lock' = IF GlobalLock THEN g ELSE lock
+           /\ UNCHANGED <<pub, hid, obj, lpub, lhid, res, seen, calls, sets>>
 \* the caller changes a public field between calls (only when no call on that object is in progress)
 SetField(o, v) == /\ sets < MaxSets /\ \A g \in Goroutines : pc[g] = "idle"
                   /\ pub' = [pub EXCEPT ![o] = v] /\ sets' = sets + 1
-                  /\ UNCHANGED <<hid, pc, obj, lpub, lhid, res, seen, calls, writing>>
+                  /\ UNCHANGED <<hid, pc, obj, lpub, lhid, res, seen, calls, writing, lock>>
 
 Next == \/ \E g \in Goroutines, o \in Objects : CopyIn(g, o)
-        \/ \E g \in Goroutines : BuildBegin(g) \/ Use(g) \/ Return(g)
+        \/ \E g \in Goroutines : BuildBegin(g) \/ Use(g) \/ Return(g) \/ Fail(g)
         \/ \E o \in Objects, v \in Values : SetField(o, v)
 Spec == Init /\ [][Next]_vars
 
@@ -92,5 +104,8 @@ SharedDerivedNeverWritten == \A o \in Objects : hid[o] = Nil
 \* ---- C15 ----
 \* a call's result depends only on the field values the object had when the call was made
 ResultIsFunctionOfFields == \A g \in Goroutines : pc[g] = "used" => res[g] = Result(Derive(seen[g]))
+\* a failed call leaves nothing behind that a later call could wait for: a call that has built its state can always go on
+FailedCallLeavesNothingHeld == lock = "free"
+NoCallBlocked == \A g \in Goroutines : pc[g] = "built" => ENABLED (Use(g) \/ Fail(g))
 CallsLeaveFieldsUnchanged == [][(\A o \in Objects, v \in Values : ~SetField(o, v)) => pub' = pub]_vars
 =============================================================================
